@@ -209,6 +209,11 @@ func seqRun(w *World, coll bool) {
 					o.HasWT, o.WT = true, time.Unix(int64(1000+t.Choose(1000)), 0)
 					opts++
 				}
+				if t.Flag(1, 8) {
+					o.HasMore, o.MoreMask = true, [][]string{{fS}, {fB}, {fN, fS}}[t.Choose(3)]
+					o.MoreFirst = !o.HasMask && t.Flag(1, 2)
+					opts++
+				}
 				if o.Kind == opUpdate {
 					o.CreateIfAbs = t.Flag(1, 2)
 					o.ExpectAbs = t.Flag(1, 6)
